@@ -125,6 +125,21 @@ def build_harness():
     return rc == 0, out
 
 
+TX3C_TARGET = os.path.join(CACHE, "target-tx3c")
+TX3C_BIN = os.path.join(TX3C_TARGET, "debug", "tx3c")
+
+
+def build_tx3c():
+    """The real `tx3c` binary, built from /repo's working tree into the framework's own cache."""
+    env = dict(ENV)
+    env["CARGO_TARGET_DIR"] = TX3C_TARGET
+    with Lock("cargo-tx3c"):
+        rc, out = run(["cargo", "build", "--offline", "-q", "-p", "tx3c"], cwd=REPO, env=env)
+    if rc == 0:
+        ENV["TX3C_BIN"] = TX3C_BIN
+    return rc == 0, out
+
+
 def lake_build(targets):
     with Lock("lean"):
         rc, out = run(["lake", "build"] + targets, cwd=LEAN)
